@@ -6,6 +6,7 @@ mod flatten;
 mod group;
 mod probe;
 mod sexp;
+mod subalg;
 mod subj;
 mod timed;
 mod val;
@@ -29,6 +30,7 @@ fn run_case(case: &Sexp) -> String {
     "timed" => timed::run_timed(body),
     "async" => asyncsrc::run_async(body),
     "atform" => timed::run_atform(body),
+    "subalg" => subalg::run_subalg(body),
     "subject" => subj::run_subject(body),
     "behavior" => subj::run_behavior(body),
     "op2" => chain::local::run_op2(body),
